@@ -93,6 +93,8 @@ def check_backend_interpreted(run, f, cfg, short, esc, une, why):
         run.anchor("C17.R1", "%s:escape" % short, "%s; %s" % (why, e2), cfg)
         return
     run.notes.append("%s: escape/unescape pair decided by interpretation of the bodies (%s)" % (short, why))
+    from .. import scope
+    scope.check_bound(run, "C17.R1", "%s:scope" % short, f, [esc, une], 3, cfg, "%s escape / unescape (strings of length <= 3)" % short)
     run.ob("C17.R1", "%s:homomorphism" % short, not problems,
            "%s: escape_string is one simultaneous per-character substitution (tabulated on all strings of length <= 2 over %d characters)%s" % (
                short, len(alphabet), "" if not problems else ": " + "; ".join(problems)), sp=f.fns[esc]["sp"], cfg=cfg)
